@@ -233,7 +233,7 @@ pub fn run(cx: &Ctx) {
     let mut grid = Vec::new();
     let mut r = Sm(cx.seed ^ 0xC19);
     for &n in &lens {
-        let pl = gen::Placement { shape: r.below(gen::SHAPES as u64) as usize, order: 0, ls: if n % 2 == 0 { r.range(-28.0, -16.0) } else { r.range(-10.0, 28.0) }, lk: Some(r.range(0.0, 9.0)), neg: false };
+        let pl = gen::Placement { shape: r.below(gen::SHAPES as u64) as usize, order: 0, ls: if n % 2 == 0 { r.range(-28.0, -16.0) } else { r.range(-10.0, 28.0) }, lk: Some(r.range(0.0, 9.0)), neg: n % 3 == 1 };
         let xs = gen::bulk_dataset(n, r.next(), &pl);
         for &t in &THREADS {
             for split in 0..8u8 {
